@@ -1,21 +1,27 @@
 #!/bin/bash
-# usage: tools/eval_refactor.sh <worktree with _rf/patch_*.diff> [checks...]
-# Applies each behaviour-preserving patch to the scratch worktree, runs the checks against it
-# (LDAP3_REPO=<worktree>), prints any alarm (= a false alarm of the checker), restores the worktree.
-WT=$1; shift
+# usage: tools/eval_refactor.sh <set under /verif/refactors, e.g. C05a> [patch numbers "1 3" | all] [checks...]
+# Applies each behaviour-preserving patch of the set to a scratch worktree of /repo (/tmp/rf-eval, created on demand, removed
+# with tools/eval_refactor.sh --clean), runs the checks against it (LDAP3_REPO), prints any alarm (= a false alarm of the checker).
+if [ "$1" = "--clean" ]; then git -C /repo worktree remove --force /tmp/rf-eval 2>/dev/null; git -C /repo worktree prune; exit 0; fi
+set=$1; shift
+which=${1:-all}; shift
 checks="$@"
 [ -z "$checks" ] && checks="C01 C02 C03 C04 C05 C06 C07 C08 C09 C10 C11 C12 C13 C14 C15 C16 C17 C18 C19 C20"
+WT=/tmp/rf-eval
+[ -d $WT ] || git -C /repo worktree add --detach -q $WT HEAD
 cd $WT || exit 9
-git checkout -q -- . 
-for p in _rf/patch_*.diff; do
-  [ -s "$p" ] || { echo "== $p: empty"; continue; }
-  git apply "$p" || { echo "== $p: DOES NOT APPLY"; continue; }
-  echo "== $p ($(git diff --stat -- src lber/src | tail -1))"
+git checkout -q --detach $(git -C /repo rev-parse HEAD) 2>/dev/null
+git checkout -q -- .
+for p in /verif/refactors/$set/patch_*.diff; do
+  k=$(basename $p .diff); k=${k#patch_}
+  if [ "$which" != "all" ] && ! echo " $which " | grep -q " $k "; then continue; fi
+  git apply "$p" || { echo "== $set/$k: DOES NOT APPLY"; continue; }
+  echo "== $set/patch_$k ($(git diff --stat -- src lber/src | tail -1))"
   for c in $checks; do
     out=$(LDAP3_REPO=$WT /verif/check $c 2>&1)
     echo "$out" | grep -E 'BUILD-ERROR|Traceback' | head -2
     n=$(echo "$out" | grep -c '^VIOLATION')
-    if [ "$n" -gt 0 ]; then echo "   $c: $n alarm(s):"; echo "$out" | grep -B2 '^VIOLATION' | grep -vE '^VIOLATION|^--' | cut -c1-400; fi
+    if [ "$n" -gt 0 ]; then echo "   $c: $n alarm(s):"; echo "$out" | grep -B2 '^VIOLATION' | grep -vE '^VIOLATION|^--' | cut -c1-${COLS:-400}; fi
   done
   git checkout -q -- .
 done
